@@ -172,7 +172,8 @@ def run(tape, kind, k_hist=None):
     def record(key, digest, h):
         if key in digests:
             if digests[key] != digest:
-                out.violate('history-independent', key[0] if isinstance(key, tuple) else str(key),
+                kinds = {'g': 'generate', 'c': 'compute', 's': 'sample'}
+                out.violate('history-independent', kinds.get(str(key[0])[:1], 'op'),
                             key=str(key), history_a=first_hist[key], history_b=h,
                             digest_a=digests[key], digest_b=digest)
                 return False
